@@ -58,7 +58,8 @@ def impl_cfg(kind, tol, b, *, ref=False, merge=False, inplace=False, collide=Fal
          f' ExecFlags = {tla_set(b["execflags"])}\n LitXs = {tla_set(b["litxs"])}\n LinZArgs = {tla_set(b["linzargs"])}\n AnyMatch = {to_tla(anymatch)}\n'
          "INIT Init\nNEXT Next\nCONSTRAINT Bound\nCHECK_DEADLOCK FALSE\n")
     if invariants:
-        s += "".join(f"INVARIANT {i}\n" for i in IMPL_INVS)
+        # "clauses": only the clauses of the property (used to show which of them a refuted rule breaks)
+        s += "".join(f"INVARIANT {i}\n" for i in (CLAUSES if invariants == "clauses" else IMPL_INVS))
     return s
 
 
@@ -381,7 +382,8 @@ def run(ck: Check):
                  timeout=1700, dump=True)
     for kind, tol, vname, kw, flavours in variant_defs:
         for inplace in flavours:
-            jobs.add(f"refute-{vname}-{tol}-{inplace}", "DiscCacheImpl", impl_cfg(kind, tol, b, inplace=inplace, **kw),
+            jobs.add(f"refute-{vname}-{tol}-{inplace}", "DiscCacheImpl",
+                     impl_cfg(kind, tol, b, inplace=inplace, invariants="clauses", **kw),
                      expect_ok=False, count=False, coverage=False, timeout=900)
             jobs.add(f"graph-{vname}-{tol}-{inplace}", "DiscCacheImpl",
                      impl_cfg(kind, tol, b, inplace=inplace, invariants=False, anymatch=True, **kw),
